@@ -245,14 +245,14 @@ theorem tightenExpression_ok : ∀ e : Exp (Ext K), TightenOK ρ e := by
       simp [binVal] at hv; subst hv
       simp only []
       refine ihb _ _ y (iha _ s x hb hx ?_) hy ?_
-      · have := mem_sub hm' hyb; simpa using this
-      · have := mem_sub hm' hxb; simpa using this
+      · have := mem_sub hm hyb; simpa using this
+      · have := mem_sub hm hxb; simpa using this
     · -- sub
       simp [binVal] at hv; subst hv
       simp only []
       refine ihb _ _ y (iha _ s x hb hx ?_) hy ?_
-      · have := mem_add hm' hyb; simpa using this
-      · have := mem_sub hxb hm'; simpa using this
+      · have := mem_add hm hyb; simpa using this
+      · have := mem_sub hxb hm; simpa using this
     · -- mul
       simp [binVal] at hv; subst hv
       simp only []
@@ -264,7 +264,7 @@ theorem tightenExpression_ok : ∀ e : Exp (Ext K), TightenOK ρ e := by
         · rename_i hc
           have hc : x ≠ 0 := by simpa using hc
           refine ihb _ s y hb hy ?_
-          have := mem_divBy x hm' hc
+          have := mem_divBy x hm hc
           rwa [mul_div_cancel_left₀ _ hc] at this
         · exact hb
       | none =>
@@ -277,7 +277,7 @@ theorem tightenExpression_ok : ∀ e : Exp (Ext K), TightenOK ρ e := by
           · rename_i hc
             have hc : y ≠ 0 := by simpa using hc
             refine iha _ s x hb hx ?_
-            have := mem_divBy y hm' hc
+            have := mem_divBy y hm hc
             rwa [mul_div_cancel_right₀ _ hc] at this
           · exact hb
         | none => exact hb
@@ -293,7 +293,7 @@ theorem tightenExpression_ok : ∀ e : Exp (Ext K), TightenOK ρ e := by
           have := asNum_eq hb'; subst this; have := eval_num_some hy; subst this
           simp only [a_ne, a_zero, Ext.eq, ef_eq, hy0, decide_false, Bool.not_false, if_true]
           refine iha _ s x hb hx ?_
-          have := mem_scale y hm'
+          have := mem_scale y hm
           rwa [div_mul_cancel₀ _ hy0] at this
         | none => exact hb
     all_goals exact hb
@@ -307,7 +307,7 @@ theorem tightenExpression_ok : ∀ e : Exp (Ext K), TightenOK ρ e := by
     · simp only [eval, Option.map_eq_some_iff] at hv
       obtain ⟨w, hw, rfl⟩ := hv
       refine ih _ s w hb hw ?_
-      have := mem_neg hm'; simpa using this
+      have := mem_neg hm; simpa using this
     · exact hb
 
 end
